@@ -60,6 +60,20 @@ Theorem order_by_answer : forall st q,
 Proof. exact gql_order_answer_l. Qed.
 Print Assumptions order_by_answer.
 
+Theorem aggregate_answer : forall st q keys aggs,
+  store_ok st -> single_hops (q_pat q) = true -> single_labels (q_pat q) = true -> pat_fresh (q_pat q) = true ->
+  no_type_case st (q_pat q) = true -> directed (q_pat q) = true ->
+  q_ret q = RAgg keys aggs -> agg_core_q q = true -> q_order q = nil -> q_skip q = None -> q_limit q = None ->
+  keys_fresh (chain_cols_pat (q_pat q)) (agg_exprs keys aggs) ->
+  (forall en, List.In en (body_envs st q) -> forallb group_key_ok (map (item_val st en) keys) = true) ->
+  match plan_rows st (gql_plan_of q), answer st q with
+  | Ok rows, Ok rs => rows = typed_answer keys aggs rs
+  | Err, Err => True
+  | _, _ => False
+  end.
+Proof. exact agg_answer_l. Qed.
+Print Assumptions aggregate_answer.
+
 Theorem gql_same_plan : forall q, q_order q = nil -> q_skip q = None -> q_limit q = None -> gql_plan_of q = cypher_plan_of q.
 Proof. exact gql_plan_plain. Qed.
 Print Assumptions gql_same_plan.
@@ -208,3 +222,14 @@ Proof.
   - intros x k x' k' H H'. cbn in H, H'.
     destruct H as [H|[H|[H|[]]]]; inversion H; subst; destruct H' as [H'|[H'|[H'|[]]]]; inversion H'; subst; intros E; try discriminate E; auto.
 Qed.
+
+Definition nv_agg_q : query :=
+  mkQ (mkPat (mkNP "a" []) [hop1 Out None (Some "r") "b"])
+      None (RAgg [EProp "b" "u"] [mkAgg ACountNN (Some (EVar "a")) false None; mkAgg ASum (Some (EProp "r" "eu")) false None; mkAgg ACollect (Some (EProp "a" "u")) true None]) [] None None.
+Example nv_agg :
+  agg_core_q nv_agg_q = true /\
+  answer nv_st nv_agg_q = Ok [[VInt 101; VInt 2; VInt 1001; VList [VInt 100]]; [VInt 102; VInt 2; VInt 1005; VList [VInt 101; VInt 102]]] /\
+  typed_answer [EProp "b" "u"] [mkAgg ACountNN (Some (EVar "a")) false None; mkAgg ASum (Some (EProp "r" "eu")) false None; mkAgg ACollect (Some (EProp "a" "u")) true None]
+    [[VInt 101; VInt 2; VInt 1001; VList [VInt 100]]; [VInt 102; VInt 2; VInt 1005; VList [VInt 101; VInt 102]]]
+  = [[VInt 101; VInt 2; VInt 1001; VList [VInt 100]]; [VInt 102; VInt 2; VInt 1005; VList [VInt 101; VInt 102]]].
+Proof. vm_compute. repeat split. Qed.
